@@ -313,3 +313,60 @@ func runClauseLimit(c WindowCase, clause string, limit int64) (recs []MatchRec, 
 	}
 	return RecsOf(res.Matches), "", "", false
 }
+
+// TestC04Many: thousands of very short matches (one per two-byte line), so that the
+// window of `last n` slides over hundreds and thousands of matches and the amounts
+// lie on both sides of 512, 1024 and 2048.
+func TestC04Many(t *testing.T) {
+	seedNote(t)
+	StartWatchdog("C04", 120*time.Second)
+	st := NewStats("C04", "many", "exhaustive over texts of L = 513, 700, 1025, 1500, 2600 two-byte lines (one match each; the last line with and without its line end) x find / replace x clauses `last n`, `top n`, `skip s`, `skip s take t` with amounts 1, 2, 127, 128, 300, 511, 512, 513, 800, 1024, L-513, L-512, L-1, L: compared field by field with the slice of `all`; non-trivial = a proper non-empty window; distinct by (L, replace, clause)")
+	st.Exhaustive = true
+	defer st.Write()
+	for _, L := range []int{513, 700, 1025, 1500, 2600} {
+		for _, replace := range []bool{false, true} {
+			text := strings.Repeat("a\n", L)
+			if replace {
+				text = strings.TrimSuffix(text, "\n")
+			}
+			c := WindowCase{Body: "'a'", Text: text, Replace: replace}
+			all, sig, what, discard := runClauseLimit(c, "all", vmLimitScale)
+			if discard || sig != "" || len(all) != L {
+				t.Fatalf("HARNESS: `all` on %d lines: discard %v sig %q %s (%d matches)", L, discard, sig, what, len(all))
+			}
+			type cl struct {
+				text   string
+				lo, hi int
+			}
+			var clauses []cl
+			for _, k := range []int{1, 2, 127, 128, 300, 511, 512, 513, 800, 1024, L - 513, L - 512, L - 1, L} {
+				if k < 1 {
+					continue
+				}
+				clauses = append(clauses, cl{fmt.Sprintf("last %d", k), max(L-k, 0), L}, cl{fmt.Sprintf("top %d", k), 0, k}, cl{fmt.Sprintf("skip %d", k), k, L}, cl{fmt.Sprintf("skip %d take 513", k), k, k + 513})
+			}
+			for _, q := range clauses {
+				got, sig, what, discard := runClauseLimit(c, q.text, vmLimitScale)
+				st.Eval()
+				if discard {
+					st.Count("discarded_vm_budget")
+					continue
+				}
+				if sig != "" {
+					Fail(t, Failure{Property: "C04", Kind: "window", What: what, Case: c, Sig: sig})
+				}
+				want := window(all, q.lo, q.hi)
+				if !recsEqual(got, want) {
+					i := 0
+					for i < len(got) && i < len(want) && recsEqual(got[i:i+1], want[i:i+1]) {
+						i++
+					}
+					Fail(t, Failure{Property: "C04", Kind: "windowscale", What: fmt.Sprintf("`%s` on %d two-byte lines: %d matches, A[%d:%d] has %d; first difference at index %d: got %s want %s", c.source(q.text), L, len(got), q.lo, q.hi, len(want), i, fmtRecs(got[min(i, len(got)):min(i+1, len(got))]), fmtRecs(want[min(i, len(want)):min(i+1, len(want))])), Case: WindowScaleCase{c, q.text, q.lo, q.hi}, Sig: "window-mismatch"})
+				}
+				if len(want) > 0 && len(want) < L {
+					st.NonTrivial(fmt.Sprint(L, replace, q.text), func() any { return map[string]any{"clause": c.source(q.text), "lines": L} })
+				}
+			}
+		}
+	}
+}
